@@ -123,7 +123,7 @@ func classString(set func(int64) bool) string {
 }
 
 func c06(c *core.Check) {
-	c.Explain = "Thin: the lexical tables of CSS Syntax 3 as they appear in the tokenizer, decided by constant evaluation of the source: (R1) input preprocessing replaces NUL by U+FFFD and CRLF, CR, FF by LF, CRLF before CR; (R2) the code point classes — name-start, name, whitespace — evaluated for every code point 0..0x100 from the predicates' expressions equal the classes of §4.2; (R3) the number and hex-escape grammars (the two regular expressions, extracted as constants) accept exactly the prefix the railroad diagrams of §4.3.12 / §4.3.7 assign on a battery derived from the diagrams; (R4) a quoted string ends at its quote, is a bad string at an unescaped newline, and drops an escaped newline. Token values in general, url(), nested blocks, error recovery (how much input a malformed construct consumes) and source positions quantify over all input strings and are not decided; that no cursor read leaves the input is decided under C07.R1. Also decided: (R5) white space and comments are skipped together in the parsing code; (R6) a failed declaration is re-parsed as a rule on exactly the tokens taken from the iterator."
+	c.Explain = "Thin: the lexical tables of CSS Syntax 3 as they appear in the tokenizer, decided by constant evaluation of the source: (R1) input preprocessing replaces NUL by U+FFFD and CRLF, CR, FF by LF, CRLF before CR; (R2) the code point classes — name-start, name, whitespace — evaluated for every code point 0..0x100 from the predicates' expressions equal the classes of §4.2; (R3) the number and hex-escape grammars (the two regular expressions, extracted as constants) accept exactly the prefix the railroad diagrams of §4.3.12 / §4.3.7 assign on a battery derived from the diagrams; (R4) a quoted string ends at its quote, is a bad string at an unescaped newline, and drops an escaped newline. Token values in general, url(), nested blocks, error recovery (how much input a malformed construct consumes) and source positions quantify over all input strings and are not decided; that no cursor read leaves the input is decided under C07.R1. Also decided: (R5) white space and comments are skipped together in the parsing code; (R6) a failed declaration is re-parsed as a rule on exactly the tokens taken from the iterator.  (R7) the remnants of a bad url skip every valid escape."
 	p := c.Prog
 	c06Trivia(c)
 	c06Rewind(c)
